@@ -8,7 +8,7 @@ import hashlib
 import json
 import os
 
-REPO = '/repo'
+REPO = os.environ.get('VERIF_REPO', '/repo')
 LOCK = os.path.join(os.path.dirname(os.path.abspath(__file__)), 'anchors.lock')
 
 
